@@ -37,10 +37,11 @@ RULE = ("EXHAUSTIVE part: every string over {a, b, U+FF25 (width 2), U+0300 (wid
         "negative and reversed bounds, int indices, and a malformed stream containing control characters (wcwidth -1: "
         "ValueError/AssertionError paths). The widths of all characters involved are read from cwcwidth at run time and "
         "handed to Coq with the case. Observation: per-character cells of the result, numbers, exception class. "
-        "The slices are judged by columns (col_slice) AND character by character (slice_ref_runs / slice_ref / inner_marks: "
-        "which characters, zero-width ones included, with which formatting); the exhaustive part contains every placement of "
-        "a run made of combining characters only (strictly inside the range, at its start column, at its end column) and of "
-        "a run beginning with a combining character (whole inside / cut by either edge) - counted by the q_mark_* labels. "
+        "The slices are judged by columns (col_slice) AND character by character (slice_ref / marks_in_range of the cells of f, "
+        "no run layout: which characters, zero-width ones included, with which formatting); the exhaustive part contains "
+        "every placement of a run made of combining characters only (strictly inside the range, at its start column, at its "
+        "end column) and of a run beginning with a combining character (whole inside / cut by either edge) - counted by the "
+        "q_mark_* labels; corpus/C10/fix-3b8c3df.json holds the inputs on which the code before fix 3b8c3df failed. "
         "non-trivial = at least one wide or zero-width character and at least one slice query; distinct = distinct "
         "(runs, queries)")
 GENERATORS = ("gen/gen_pure.py",)
@@ -50,8 +51,7 @@ TRUSTED = [
     "semantics of that Python subset coq/Spec/PyMini.v, itself run against CPython on enumerated arguments in every check",
     "Coq 8.16.1 kernel incl. vm_compute (no native_compute); Print Assumptions: closed under the global context",
     "reference notions coq/Spec/Columns.v (column expansion of cells, cut of orphaned halves, firstn/skipn; per character: "
-    "positions, keep_char, slice_ref, and the run-aware slice_ref_runs which states the code's rule for the zero-width "
-    "characters at the very beginning of a run)",
+    "positions, keep_char, slice_ref, marks_in_range - functions of the cells alone)",
     "cwcwidth (C library): its wcwidth values are data of each case; wcswidth(s, n) modelled as the sum over the first n "
     "characters or -1 (checked on every case through f.width / width_at_offset)",
     "harness canonicaliser harness/canon.py (FmtStr runs -> Coq literal) and the parser of coqc's answer",
@@ -62,9 +62,6 @@ ASSUMPTIONS = [
     "ValueError before anything else; that path is in the model and in the correspondence, not in the theorems)",
     "wcwidth(' ') = 1 (the replacement character)",
     "0 <= a <= b for the slice theorem (the property's quantifier); other index forms are only covered by the correspondence",
-    "the layout-independent character-level statements need a hypothesis on the run layout (no run begins with a zero-width "
-    "character / only runs of zero-width characters do); for every layout the exact run-aware statement is proved; the "
-    "unconditional forms are refuted by examples in Props/C10.v (findings: leading marks of a run)",
 ]
 
 
@@ -236,9 +233,9 @@ def stats(inp, out):
                          "q_mark_only_run_at_start_column" if K == a else
                          "q_mark_only_run_at_end_column" if K == b else "q_mark_only_run_outside")
             elif a < K <= b and K + w > b:
-                seen.add("q_mark_leading_run_cut_by_right_edge")      # the code drops it: finding
+                seen.add("q_mark_leading_run_cut_by_right_edge")      # kept (before fix 3b8c3df: dropped)
             elif a == K and K + w <= b:
-                seen.add("q_mark_leading_whole_run_at_start_column")  # the code keeps it: finding
+                seen.add("q_mark_leading_whole_run_at_start_column")  # dropped (before the fix: kept)
             elif a < K and K + w <= b:
                 seen.add("q_mark_leading_whole_run_inside")
     yield from sorted(seen)
@@ -280,16 +277,13 @@ LEVEL_TEXT = ("Machine-checked theorems (Coq) for ALL FmtStrs whose characters h
               "width f = number of column cells; width_at_offset f n = number of column cells of the first n characters; "
               "for all 0 <= a <= b the column cells of width_aware_slice(a:b) are exactly columns a..b-1 of f with an orphaned "
               "half of a double-width character shown as a space in that character's formatting, and its zero-width "
-              "characters are a sub-sequence of f's. Character by character (zero-width characters and formatting included): "
-              "for every run layout the cells of the slice are exactly the run-aware reference slice_ref_runs (each character "
-              "judged by its start column and width: wholly inside kept, cut wide character -> space in its state, zero-width "
-              "kept iff a < column <= b; only the zero-width characters at the very beginning of a run follow a rule of their "
-              "run); where no run begins with a zero-width character they are the layout-independent slice_ref of the cells; "
-              "where only runs of zero-width characters begin with one, every zero-width character strictly inside (a, b) is "
-              "kept with its formatting, in order. Unconditional forms of the last two are refuted (Props/C10.v, *_refuted: the "
-              "leading marks of a run that is cut by the right edge are dropped; of a run lying wholly inside are kept even at "
-              "the start column). The model follows the code (run walk with counter, whole-run reuse, "
-              "early break, per-character divides, zero-width-at-start rule, interval_overlap) and its agreement with the "
+              "characters are a sub-sequence of f's. Character by character (zero-width characters and formatting included), "
+              "for EVERY run layout: the cells of the slice are exactly slice_ref a b (cells f) - each character judged by its "
+              "start column and width alone: wholly inside kept, cut wide character -> space in its state, zero-width kept iff "
+              "a < column <= b - and the zero-width characters of the slice are exactly those of f with a < column <= b, in "
+              "order, with their formatting (none at column a, none beyond b). The model follows the code (run walk with counter, helper called with "
+              "the unclamped offsets, run object reused when the helper returns the run's text / new run / nothing, early break, "
+              "per-character divides, zero-width-at-start rule, interval_overlap) and its agreement with the "
               "implementation is checked exhaustively on small inputs in every run")
 LEVEL_NOTE = ("Trusted: Coq kernel+vm_compute, Spec/Columns.v, the canonicaliser; cwcwidth's per-character widths are inputs "
               "(Section variable wc; theorems assume range {0,1,2} on the input's characters and wc ' ' = 1). "
